@@ -48,6 +48,9 @@ def jobs(tier, seed):
     def add(S, A, E, pat, bs, dv, pre, sample=None, cost=1):
         out.append(dict(name=f"S{S}A{A}E{E}-{pat}-bs{bs}-dev{dv}-{pre}", S=S, A=A, E=E, pat=pat, bs=bs, devices=dv, pre=pre, sample=sample,
                         seed=seed, cost=cost * S ** (S * A * E)))
+    for pre in ("second-call", "two-sweeps"):   # a second solve() call on the same solver / two sweeps inside one call
+        add(2, 2, 1, "det", 2, 1, pre)
+        add(2, 2, 2, "half", 1, 1, pre)
     for pre in ("initial", "invariant"):
         add(2, 2, 1, "det", 1, 1, pre)
         add(2, 2, 2, "half", 2, 1, pre)
@@ -128,7 +131,7 @@ def run_job(job):
             L = h["L"] = kit.Lifted(pb, lift_P=False, lift_V0=True)
             pathx.CUR.assume(z3.And(*(L.pre + [eps > 0])))
             solver = kit.make_solver("rvi", pb, max_batch_size=job["bs"])
-            if job["pre"] == "invariant":
+            if job["pre"] in ("invariant", "two-sweeps"):
                 V = sym("V", (S,))
                 solver.values = V
                 solver.gain = lift(V.val[S - 1])
@@ -139,9 +142,11 @@ def run_job(job):
             solver._setup_convergence_testing()
             from loguru import logger
             msgs = []
+            if job["pre"] == "second-call":
+                solver.solve(1)          # an earlier call (whatever its outcome); the claims are about the next one
             hid = logger.add(lambda m: msgs.append(str(m)), level="INFO")
             try:
-                st = solver.solve(1)
+                st = solver.solve(2 if job["pre"] == "two-sweeps" else 1)
             finally:
                 logger.remove(hid)
             return dict(reported=any("Convergence threshold reached" in m for m in msgs), vals=val_of(st.values), pol=val_of(st.policy),
@@ -170,7 +175,9 @@ def run_job(job):
             continue
         r = o.value
         # representation invariant established by every iteration
-        ob.prove(f"invariant-established[path{pi_}]", o.pc, zx.eq(r["gain"], r["vals"][S - 1]), kind="after an iteration gain == values[-1]")
+        ob.prove(f"invariant-established[path{pi_}]", o.pc, zx.eq(r["gain"], r["vals"][S - 1]), kind="after an iteration gain == values[-1]",
+                 cex=lambda m, r=r: dict(T=kit.model_array(m, L.T), R=kit.model_array(m, L.R), V=kit.model_array(m, r["V"] if job["pre"] != "second-call" else L.V0),
+                                         eps=zx.model_value(m, eps), P=[[[zx.from_np_scalar(x) for x in row] for row in pl] for pl in Pc], pre=job["pre"]))
         if not r["reported"]:
             continue
         nconv += 1
@@ -204,7 +211,7 @@ def run_job(job):
             tag = "".join(map(str, Tt))
 
             def cexf(m, Tc=Tc, r=r):
-                return dict(T=Tc, R=kit.model_array(m, L.R), V=kit.model_array(m, r["V"]), eps=zx.model_value(m, eps),
+                return dict(T=Tc, R=kit.model_array(m, L.R), V=kit.model_array(m, r["V"] if job["pre"] != "second-call" else L.V0), eps=zx.model_value(m, eps),
                             P=[[[zx.from_np_scalar(x) for x in row] for row in pl] for pl in Pc], pre=job["pre"])
             if not reach_done:
                 reach_done = ob.reach(f"converged-path{pi_}", cons) == "sat"
@@ -247,9 +254,11 @@ def replay(data):
     R, P, V = (np.array(tofloat(c[x]), dtype=float) for x in ("R", "P", "V"))
     e = float(c["eps"])
     S, A, E = T.shape
-    if c["pre"] == "initial":
+    if c["pre"] in ("initial", "second-call"):
         pb = Tab(S, A, E, T=T, R=R, P=P, V0=V)
         s = kit.make_solver("rvi", pb, max_batch_size=job["bs"], epsilon=e)
+        if c["pre"] == "second-call":
+            s.solve(1)
     else:
         pb = Tab(S, A, E, T=T, R=R, P=P)
         s = kit.make_solver("rvi", pb, max_batch_size=job["bs"], epsilon=e)
@@ -257,11 +266,16 @@ def replay(data):
         s.gain = jnp.asarray(V[-1])
         s.iteration = 1
     old = np.asarray(s.values).copy()
-    st = s.solve(1)
+    it0 = s.iteration
+    st = s.solve(2 if c["pre"] == "two-sweeps" else 1)
     W, gain = np.asarray(st.values), float(st.info.gain)
+    if data["obligation"].startswith("invariant-established"):
+        return bool(abs(gain - W[-1]) > 1e-9 * max(1.0, abs(gain))), f"after solve(): gain {gain} vs values[-1] {W[-1]}"
     d = W - old
-    if d.max() - d.min() >= e:
+    if c["pre"] != "two-sweeps" and d.max() - d.min() >= e:
         return False, "did not converge in floating point"
+    if c["pre"] == "two-sweeps" and st.info.iteration - it0 == 2:
+        pass
     g_star, _ = average_reward(T, R, P)
     asp = np.asarray(pb.action_space)
     pol = np.array([int(np.where((asp == np.asarray(st.policy)[i]).all(1))[0][0]) for i in range(S)])
